@@ -203,6 +203,8 @@ func init() {
 		Rule:        commonRule,
 		Fixtures:    []string{"seq", "nf", "w"},
 		Run: func(c *Ctx, r *Result) {
+			nf1 := runFLAT1(c, r, "FLAT1")
+			r.RequireMin("FLAT1 functions under a path step outside eval", nf1, 8)
 			runSEQ(c, c.G, r, "SEQ", c.W.LibSSA["jsonata"], c.Lib, c.REval.Roots)
 			r.RequireMin("SEQ producers (boxing of *sequence)", r.Counts["SEQ producers (boxing of *sequence)"], 5)
 			r.RequireMin("SEQ consumers (asSequence call sites)", r.Counts["SEQ consumers (asSequence call sites)"], 4)
@@ -271,6 +273,8 @@ func init() {
 			runMAPEQ(c, r, "MAPEQ", ef)
 			r.Count("MAPEQ functions scanned", len(ef))
 			runF2I(c, r, "F2I", c.fnsNamed(r, "jsonata.evalRange"))
+			rc := runRANGECAP(c, r, "RANGECAP", ef)
+			r.RequireMin("RANGECAP sizes converted from numbers and used to size a slice or a loop", rc, 2)
 			ng := runNEGFOLD(c, r, "NEGFOLD")
 			r.RequireMin("NEGFOLD success returns of NegationNode.optimize", ng, 1)
 			r.Assume("numbers entering evaluation (decoded JSON, number literals) are finite; FIN shows finiteness is preserved")
@@ -284,6 +288,8 @@ func init() {
 		Run: func(c *Ctx, r *Result) {
 			runPRATT(c, r, "PRATT")
 			runPARENS(c, r, "PARENS")
+			ws := runWSDEF(c, r, "WSDEF")
+			r.RequireMin("WSDEF definitions of whitespace in the lexer", ws, 1)
 			runRegistrationSwitch(c, r, "TAB")
 			// the parse is a function of the text: nothing under Compile/Parse writes memory that
 			// existed before the call (no cache of parsed sub-expressions, no global parser state)
@@ -354,6 +360,8 @@ func init() {
 		Rule:        commonRule,
 		Fixtures:    []string{"w"},
 		Run: func(c *Ctx, r *Result) {
+			es := runESCSKIPOn(c, r, "ESCSKIP", "jparse.(*lexer).scanRegex", "scanRegex")
+			r.RequireMin("ESCSKIP escape handling in scanRegex", es, 1)
 			k := runKEYS(c, r, "KEYS")
 			r.RequireMin("KEYS obligations", k, 4)
 			for _, site := range []struct{ fn, needs string }{{"jlib.Split", "jlib.checkMatchRanges"}, {"jlib.replaceMatchFunc", "jlib.checkMatchRanges"}} {
@@ -406,12 +414,29 @@ func init() {
 		ID:          "C13",
 		Explanation: "Decides: the functions implementing order-by and $sort write only memory of the same evaluation and hand none to unreviewed library code (W restricted to the sort machinery: no pooled or cached sort records); every sort call reachable from Eval is a stable variant (sort.SliceStable/sort.Stable); every comparator handed to them returns only constants, strict < / > tests, or calls that return only those (no <=, >=, ==, negation, lte) — a non-strict less function breaks stability for ties; the slice sorted in place is allocated by the same evaluation; jlib.merge calls the user comparator as swap(left head, right head) and takes the left head on a false result, so the hand-written merge sort is stable. Go's unstable sort is an insertion sort below 12 items, so none of this is visible to the suite. NOT decided: permutation/order/error clauses as values, key typing, direction per term. (MISSLAST) the order-by comparator answers false when the first item's key is absent and true when the second item's is: items without the key go last; (SORTTYPES) mixed number/string keys of one term are detected whatever lies between them.",
 		Rule:        commonRule,
-		Fixtures:    []string{"sort"},
+		Fixtures:    []string{"sort", "shape"},
 		Run: func(c *Ctx, r *Result) {
 			runSORT(c, c.G, r, "SORT", c.REval, c.Lib, 3)
 			runMERGE(c, r, "MERGE")
 			ml := runMISSLAST(c, r, "MISSLAST")
 			r.RequireMin("MISSLAST absent-key answers of the order-by comparator", ml, 2)
+			// the parser functions that build sort terms: those that store into a SortTerm
+			var sortParsers []*ssa.Function
+			for _, f := range c.W.FuncsOf(PkgSet{c.W.Lib["jparse"].Types: true}) {
+				if !c.RCompile.Set[f] {
+					continue
+				}
+				for _, ins := range instrsIn(f) {
+					if fa, ok := ins.(*ssa.FieldAddr); ok {
+						if nt, ok := deref(fa.X.Type()).(*types.Named); ok && nt.Obj().Name() == "SortTerm" {
+							sortParsers = append(sortParsers, f)
+							break
+						}
+					}
+				}
+			}
+			pi := runPERITEM(c, r, "PERITEM", sortParsers)
+			r.RequireMin("PERITEM fields of sort terms recorded in parser loops", pi, 2)
 			st := runSORTTYPES(c, r, "SORTTYPES")
 			r.RequireMin("SORTTYPES obligations in buildSortInfo", st, 3)
 			// the sort machinery works only on state of the same evaluation: every write (and every
@@ -475,6 +500,9 @@ func init() {
 			}
 			runMAPEQ(c, r, "MAPEQ", mf)
 			r.Count("MAPEQ functions scanned", len(mf))
+			nk := runNUMKINDS(c, r, "NUMKINDS", libFuncsIn(c, c.REval))
+			r.Count("NUMKINDS type switches over numeric types", nk)
+			r.Count("NUMKINDS functions scanned", len(libFuncsIn(c, c.REval)))
 			// every member visited once, in order
 			var cf []*ssa.Function
 			for _, f := range libFuncsIn(c, c.REval) {
@@ -513,15 +541,19 @@ func init() {
 	})
 	register(&propDef{
 		ID:          "C19",
-		Explanation: "Decides: (TAB) expandDateComponent's switch and defaultDateFormats cover all 17 declared date components; (CLOCK) the only clock read under Eval is time.Now in Expr.newEnv, called once per Eval outside loops, and $now and $millis embed conversions of one and the same SSA value; (GUARD-API) no nanoseconds-since-epoch API (UnixNano: defined only 1678..2262) is reachable from $toMillis; (GUARD) every integer division/modulo under $fromMillis has a dominating non-zero test of its divisor; (W) $fromMillis/$toMillis and the picture machinery beneath them are functions of their arguments (no write to pre-existing memory, no process-wide cache). NOT decided: calendar field values (the 12-hour clock showing 0 for the midnight hour is real and value-level), the inverse law.",
+		Explanation: "Decides: (TAB) expandDateComponent's switch and defaultDateFormats cover all 17 declared date components; (CLOCK) the only clock read under Eval is time.Now in Expr.newEnv, called once per Eval outside loops, and $now and $millis embed conversions of one and the same SSA value; (GUARD-API) no nanoseconds-since-epoch API (UnixNano: defined only 1678..2262) is reachable from $toMillis; (GUARD) every integer division/modulo under $fromMillis has a dominating non-zero test of its divisor; (W) $fromMillis/$toMillis and the picture machinery beneath them are functions of their arguments (no write to pre-existing memory, no process-wide cache). NOT decided: calendar field values (the 12-hour clock showing 0 for the midnight hour is real and value-level), the inverse law. (RANGE12) interval proof over SSA with difference constraints: every integer that the formatter dispatched for the 12-hour component hands to formatIntegerComponent lies in 1..12, from time.Time.Hour in 0..23, x % 12 in 0..11 for non-negative x and the dominating zero test; the constant flag passed by the dispatching function is assumed inside the shared helper.",
 		Rule:        commonRule,
-		Fixtures:    []string{"guard", "tab", "w"},
+		Fixtures:    []string{"guard", "tab", "w", "shape"},
 		Run: func(c *Ctx, r *Result) {
 			runDateTables(c, r, "TAB")
 			runEnumSwitches(c, r, "TAB", []string{"jxpath"}, map[string]bool{"dateComponent": true})
 			runCLOCK(c, r, "CLOCK")
+			r12 := runRANGE12(c, r, "RANGE12")
+			r.RequireMin("RANGE12 integers formatted for the 12-hour component", r12, 1)
 			runUnixNano(c, r, "GUARD-API")
 			fm := c.mustFn(r, "jlib.FromMillis")
+			au := runARGUSE(c, r, "ARGUSE", fm)
+			r.RequireMin("ARGUSE arguments of $fromMillis", au, 3)
 			if fm != nil {
 				reach := c.G.Reach(fm)
 				n := runGUARD(c, r, "GUARD", srcFuncsIn(reach), reach)
@@ -1070,6 +1102,8 @@ func init() {
 		Run: func(c *Ctx, r *Result) {
 			e := runW(c, c.G, r, "W", evalRootCfg(c))
 			runTransformClone(c, r, e, "W")
+			cc := runCLAUSECTX(c, r, "CLAUSECTX")
+			r.RequireMin("CLAUSECTX evaluations of a transform's update/delete clause", cc, 2)
 			r.Assume(wAssume1)
 			r.Assume(wAssume2)
 		},
@@ -1081,6 +1115,8 @@ func init() {
 		Fixtures:    []string{"w"},
 		Run: func(c *Ctx, r *Result) {
 			runSCOPE(c, r, "SCOPE")
+			ncl := runCLOSURE(c, r, "CLOSURE")
+			r.RequireMin("CLOSURE stores into closure-typed function values", ncl, 8)
 			// the W obligations that concern function values and scopes: writes to fields of
 			// callable types, of callableName, and of environments
 			e := runWFiltered(c, c.G, r, "W", evalRootCfg(c), func(s wSite) bool {
